@@ -136,9 +136,27 @@ def shard(args):
             ex['reqs'].append((rq, dict(headers=[['Host', 'h', False], ['Connection', 'Upgrade', False], ['Upgrade', proto, False]])))
             ex['ress'].append((rs, dict(id='%d-%s' % (k, nonce), status=101, body=b'', headers=[['X-Id', '%d-%s' % (k, nonce), False], ['Upgrade', proto, False], ['Connection', 'Upgrade', False]])))
             ex['n'] = k + 1
+        connect_at = None
+        if i % 16 == 13 and ex['n'] >= 2:
+            # directed: one of the N exchanges is a CONNECT that the proxy refuses (407/403/502 with a body) - an ordinary request/response
+            # pair as far as pairing goes, but the one place where the documented DATA_OTHER hand-over happens: the request side waits
+            # for the answer, the response side yields at its end.  Requests behind it are pipelined or arrive later, as the cut decides.
+            connect_at = r.randrange(ex['n'])
+            k, nonce = connect_at, ex['nonce']
+            tgt = 'r%d-%s.example:443' % (k, nonce)
+            st = r.pick([407, 403, 502, 404])
+            body = b'denied %d' % k
+            rq = ('CONNECT %s HTTP/1.1\r\nHost: %s\r\n\r\n' % (tgt, tgt)).encode()
+            rs = ('HTTP/1.1 %d Refused\r\nX-Id: %d-%s\r\nContent-Length: %d\r\n\r\n' % (st, k, nonce, len(body))).encode() + body
+            ex['reqs'][k] = (rq, dict(headers=[['Host', tgt, False]]))
+            ex['ress'][k] = (rs, dict(id='%d-%s' % (k, nonce), status=st, body=body, headers=[['X-Id', '%d-%s' % (k, nonce), False], ['Content-Length', str(len(body)), False]]))
+            ex['connect_at'] = k
         ops, readings, style = make_history(ex, r, early=(i % 16 in (2, 10) and not opts.get('expect_4xx')))
+        if connect_at is not None:
+            readings = set([False, True])       # what "started" means for a request held back behind a CONNECT is not fixed by the statement: flag not judged
+            style = style[:2] + (style[2] + '+connect',)
         cfg = {'PERSONALITY': r.randrange(10), 'URLENC_PARSER': r.randrange(2), 'DUMP': hxb.DUMP_TX, 'AUTO_DESTROY': 0,
-               'DESTROY_DONE': 1 if r.chance(0.2) else 0, 'MAX_TX': r.pick([-1, -1, 512, 100])}
+               'DESTROY_DONE': 1 if r.chance(0.2) and connect_at is None else 0, 'MAX_TX': r.pick([-1, -1, 512, 100])}
         cases.append((i, cfg, ops))
         meta[i] = (ex, cfg, ops, readings, style)
     path = os.path.join(wd, 'b%d.hxb' % s)
@@ -172,10 +190,19 @@ def shard(args):
             xid = oracle.header_lookup(t['res_headers'], 'X-Id')
             if xid is None or xid[1] != ex['ress'][k][1]['id']:
                 errs.append(('response_mispaired', 'tx %d carries response id %r, expected %r' % (k, xid[1] if xid else None, ex['ress'][k][1]['id'])))
-            if ('/r%d-%s' % (k, ex['nonce'])) not in (t['uri'] or ''):
+            if ex.get('connect_at') == k:
+                if t['uri'] != 'r%d-%s.example:443' % (k, ex['nonce']):
+                    errs.append(('request_misplaced', 'tx %d carries request %r' % (k, t['uri'])))
+            elif ('/r%d-%s' % (k, ex['nonce'])) not in (t['uri'] or ''):
                 errs.append(('request_misplaced', 'tx %d carries request %r' % (k, t['uri'])))
             if t['req_progress'] != 5 or t['res_progress'] != 5:
                 errs.append(('tx_incomplete', 'tx %d progress %d/%d' % (k, t['req_progress'], t['res_progress'])))
+            if ex.get('connect_at') == k:
+                # (the unchanged library reports a refused CONNECT twice in some orders: known finding KF-C05-early-data-other, C05's subject)
+                if t['req_progress'] == 5 and t['res_progress'] == 5 and t.get('txc', 1) < 1:
+                    errs.append(('tx_never_reported', 'tx %d (refused CONNECT) is complete on both sides but TRANSACTION_COMPLETE never ran for it' % k))
+            elif t['req_progress'] == 5 and t['res_progress'] == 5 and t.get('txc', 1) != 1:
+                errs.append(('tx_reported_times', 'tx %d: TRANSACTION_COMPLETE ran %d times' % (k, t['txc'])))
             if t['status_n'] != ex['ress'][k][1]['status']:
                 errs.append(('status', 'tx %d status %r expected %r' % (k, t['status_n'], ex['ress'][k][1]['status'])))
             # "transaction i contains request i and response i": every header and trailer field of the two messages, and none of a neighbour's
@@ -246,11 +273,11 @@ def run(tier):
     st = fw.sum_stats(stats)
     cov = {'evaluations': tot['n'], 'distinct_nontrivial': len(distinct),
            'rule': 'histories = N tagged well-formed exchanges (N in 1..8 quick / 1..64 thorough), both streams cut (per message / random / coalesced / one byte), chunks interleaved '
-                   'eagerly or at random subject to: no byte of response i before the last byte of request i; distinct = distinct op sequences. Oracle: N transactions in arrival '
+                   'eagerly or at random subject to: no byte of response i before the last byte of request i (early-answer histories: before the first body byte of request i); distinct = distinct op sequences. Oracle: N transactions in arrival '
                    'order, ids of request and response equal in tx i, all complete, and HTP_CONN_PIPELINED == flag computed from the op log (judged when the first-byte and '
                    'first-line readings of "started"/"begun" agree).',
            'samples': samples[:2], 'transactions_checked': tot['ntx'], 'flag_judged_pipelined': tot['pip'], 'flag_judged_not_pipelined': tot['npip'],
            'flag_ambiguous_not_judged': tot['amb'], 'interleaving_styles': styles, 'histories_by_N': nhist,
            'observed': {k: st.get(k) for k in ('api_calls', 'api_rc', 'tx_created', 'tx_completed', 'tx_destroyed_by_harness', 'data_other_in', 'data_other_out')}}
-    return v.finish(cov, assumptions=['early responses, CONNECT and upgrades belong to C16', 'DATA_OTHER hand-over does not occur on these histories (no CONNECT); it is exercised in C16/C09'],
+    return v.finish(cov, assumptions=['accepted CONNECTs, tunnels and upgrades with payload belong to C16; here a refused CONNECT is one of the N exchanges in a sixteenth of the histories (DATA_OTHER hand-over followed per QUICK_START; the pipelining flag is not judged on those)', 'in an eighth of the histories a response may start once the head and first body byte of its request have been offered (early answers); otherwise only after the whole request'],
                     min_obs={'evaluations': (tot['n'], n * 0.99), 'pipelined': (tot['pip'], 100), 'not_pipelined': (tot['npip'], 100)})
